@@ -306,4 +306,10 @@ def r5(F, R):
     R.floor(20)
 
 
-RULES = [("R1", r1, None), ("R2", r2, None), ("R3", r3, None), ("R4", r4, None), ("R5", r5, None)]
+def r6_clone(F, R):
+    """CLI options are cloned on their way from `with_cli` / parsing to the filter: a clone keeps every option."""
+    n = roles.check_clone_faithful_table(F, R, r"^cli::", "clone-faithful")
+    R.floor(2)
+
+
+RULES = [("R1", r1, None), ("R2", r2, None), ("R3", r3, None), ("R4", r4, None), ("R5", r5, None), ("R6", r6_clone, None)]
